@@ -292,6 +292,16 @@ def run_live(spec, res):
                         st = getattr(d, "state", None) or getattr(d, "u", None)
                         if st is not None:
                             rewritten.add(st.name)
+                # the arrays the generated functions receive must be the live arrays of the variables
+                inp_now = mdl.get_inputs()
+                for vn, var in mdl.cache.all_vars.items():
+                    if var.n and vn in inp_now and len(np.atleast_1d(var.v)) == mdl.n:
+                        res.count("input_bindings_checked")
+                        if not np.shares_memory(inp_now[vn], var.v) and not np.array_equal(inp_now[vn], var.v):
+                            res.violate("stale_model_input", "%s %s phase: the function inputs of %s hold %s for variable %s whose live value is %s "
+                                        "(array not rebound after re-addressing)" % (spec["case"], phase, mname, np.array2string(np.asarray(inp_now[vn])[:3], precision=6),
+                                                                                      vn, np.array2string(np.asarray(var.v)[:3], precision=6)), model=mname, var=vn)
+                            break
                 o = oracle_e(res, ss, mdl, models)
                 if o is None:
                     usable = False
